@@ -101,10 +101,14 @@ fn main() {
             let mut rng = Rng::new(seed ^ util_hash(id));
             let mut r1 = rng.fork(1);
             (p.corr)(&mut r1, thorough, &mut out);
+            // "corr-only": just the correspondence cases (used when the same cases are re-run under another backend)
+            let corr_only = args.get(7).map(|s| s == "corr-only").unwrap_or(false);
             let mut r2 = rng.fork(2);
-            run_laws(p, &mut r2, thorough, &mut out);
             let mut r3 = rng.fork(3);
-            (p.extra)(&mut r3, thorough, &mut out);
+            if !corr_only {
+                run_laws(p, &mut r2, thorough, &mut out);
+                (p.extra)(&mut r3, thorough, &mut out);
+            }
             out.write(dir, shards).expect("write cases");
         }
         "replay" => {
